@@ -102,13 +102,16 @@ Definition with_accessed (s : sess) (t : tnum) : sess :=
 Definition mark (s : sess) : sess :=
   {| st := st s; created := created s; accessed := accessed s; renewed := renewed s; isnew := isnew s; dirty := true |}.
 
-(* SignedSerializer.loads; None = ValueError *)
+(* serializer.loads of SignedCookieSessionFactory; None = ValueError.  [canonical_check] (regenerated fact: does
+   the factory wrap the SignedSerializer so that only the canonical text b64 (unb64 c) = c is accepted?) *)
 Definition loads (O : oracles) (k c : text) : option jv :=
   match unb64 O c with
   | None => None
   | Some f =>
-      let cs := skipn (ds O) f in
-      if text_eqb (mac O k cs) (firstn (ds O) f) then deser O cs else None
+      if canonical_check && negb (text_eqb (b64 O f) c) then None
+      else
+        let cs := skipn (ds O) f in
+        if text_eqb (mac O k cs) (firstn (ds O) f) then deser O cs else None
   end.
 
 (* float(x) inside __init__ *)
